@@ -21,7 +21,7 @@ Next ==
     \/ n = 1 /\ \E cls \in {"Trunc", "TruncPDF"}, li \in LimIdx, lm \in {"scalar", "array"} :
                    ANewTrunc(cls, 1, LIMITS[li], lm)
     \/ n = 2 /\ (\/ \E k \in Ks : ATruncIntegrate(2, IF k = 0 THEN "1" ELSE IF k = 1 THEN "x" ELSE IF k = 2 THEN "x**2" ELSE "x**k", k)
-                 \/ ATruncIntegrate(2, "x**k", 2)
+                 \/ \E k \in {0, 1, 2} : ATruncIntegrate(2, "x**k", k)
                  \/ ATruncCall(2, Points, FALSE)
                  \/ ATruncCall(2, Pick(Points, NumR(heap[1]), 1), TRUE)
                  \/ (heap[2].cls = "Trunc" /\ ATruncGetDensity(2))
